@@ -124,6 +124,7 @@ let handles_string l = sl l
 (* ---------- ADF cases ---------- *)
 let ng_budget = ref 300000
 let draws : n list ref = ref []
+let draws0 : n list ref = ref []
 let heuristic_of_words (h : string) (rest : string list) : heuristic =
   match h with
   | "Simple" -> HSimple
@@ -184,7 +185,7 @@ let run_adf id (lines : string list) =
     | ["backend"; b] -> backend := b
     | ["acdump"; _; d] -> acdumps := parse_dump d :: !acdumps
     | ["gdump"; _; d] -> gdumps := parse_dump d :: !gdumps
-    | "draws" :: l -> draws := List.map n_of_string l
+    | "draws" :: l -> draws := List.map n_of_string l; draws0 := !draws
     | ["seed"; _] -> ()
 
     | "q" :: rest -> queries := rest :: !queries
@@ -299,6 +300,7 @@ let run_adf id (lines : string list) =
             (* a call that panics on an un-repaired imported copy and is caught, then the repair step: the copy answers like
                the repaired reference copy (C11_repair_after_an_interrupted_call); the object of the case is not touched *)
             emit id qid "panicflow same=1"
+          | ["reseed"] -> draws := !draws0; emit id qid "reseed"     (* Adf::seed with the seed of the case: the stream starts again *)
           | ["validate"] -> emit id qid ("validate " ^ validate ())
           | ["roundtrip"; how] ->
             let before = table_of a.st in
@@ -493,6 +495,11 @@ let run_stream id (lines : string list) =
       | ["pump1"; j] -> let (a, b) = take (int_of_string j) !pend1 in inq1 := !inq1 @ a; pend1 := b
       | ["pump2"; j] -> if not !down_dropped then (let (a, b) = take (int_of_string j) !pend2 in inq2 := !inq2 @ a; pend2 := b)
       | ["dropdown"] -> down_dropped := true; pend2 := []
+      | ["fiximport"; who] ->
+        (match who with
+         | "p" -> producer := fix_import_cur c !producer
+         | "r" -> relay := fix_import_cur c !relay
+         | _ -> receiver := fix_import_cur c !receiver)
       | ["relaymode"; _] -> ()
       | ["mirroruniq"] ->
         let pn = Array.of_list (table_list !producer) in
